@@ -82,7 +82,7 @@ def bool_facts(t, pol):
     """Facts implied by boolean term t having truth value pol (conjunction).
     Only sound decompositions are made: Not flips, And under True, Or under False."""
     if t[0] == "bool":
-        return []
+        return [] if t[1] == pol else [(("false",), True)]
     if t[0] == "un" and t[1] == "Not":
         return bool_facts(t[2], not pol)
     if t[0] == "bin" and t[1] in ("Lt", "Le", "Gt", "Ge", "Eq", "Ne"):
@@ -119,14 +119,30 @@ def cmp_fact(op, a, b):
     raise ValueError(op)
 
 
-def facts_at(prog, body, block):
-    """Simplified conjunction of facts known on entry to `block`."""
+def facts_at(prog, body, block, _depth=0):
+    """Simplified conjunction of facts known on entry to `block` (edge dominance),
+    closed under the implication of boolean temporaries: when a branch tests a
+    bool that merges `false` (resp. `true`) with a single other value E computed
+    on predecessor p, taking the true (resp. false) edge implies E (resp. not E)
+    and everything known at p."""
     from .sym import sym_of
     s = sym_of(body)
     out = []
     for lit in s.guards(block):
         lit2 = (lit[0], prog.simp(lit[1], body), lit[2]) + tuple(lit[3:])
         out.extend(lit_to_facts(lit2))
+    if _depth < 3:
+        extra = []
+        for atom, pol in out:
+            if atom[0] == "b" and atom[1][0] == "phi":
+                ins = s.phi_inputs(atom[1])
+                live = [(p, prog.simp(v, body)) for p, v in ins.items()]
+                live = [(p, v) for p, v in live if v != ("bool", not pol)]
+                if len(live) == 1:
+                    p, v = live[0]
+                    extra.extend(bool_facts(v, pol))
+                    extra.extend(facts_at(prog, body, p, _depth + 1))
+        out.extend(extra)
     return out
 
 
